@@ -75,7 +75,9 @@ def run(ctx):
                         "schedules = interleavings of the critical sections (the mutex scope is a regenerated fact); data races below that level are searched by the concurrent run only"]
     ctx.prepare()
     ctx.lean(["Crng.Props.C19"], ["Crng.Props.C19.accepted_strictly_increasing", "Crng.Props.C19.accept_iff_newer", "Crng.Props.C19.newer_positive_accepted",
-                                  "Crng.Props.C19.not_newer_rejected", "Crng.Props.C19.collision_counterexample"],
+                                  "Crng.Props.C19.not_newer_rejected", "Crng.Props.C19.collision_counterexample",
+                                  "Crng.Props.C19.collision_breaks_newer_positive", "Crng.Props.C19.fnv_collision_1", "Crng.Props.C19.fnv_collision_2",
+                                  "Crng.Props.C19.fnv_history_violates"],
              ties=["Crng.Tie.C19", common.CODE_TABLE, common.CODE_ORDERED])
     # two names with the same FNV-1a 64 digest share one entry of validate.Ordered's map (the hypothesis `hinj` of the theorems is
     # there because of this; `collision_counterexample` shows it is needed): a concrete pair, run against the real table
@@ -102,6 +104,23 @@ def run(ctx):
     if known:
         ctx.known_hit += [k for k in ctx.known if k["id"] == "C19-fnv-collision" and k not in ctx.known_hit]
         ctx.notes.append("names with equal FNV-1a 64 digests share an entry of the order validator: %d pairs run (known finding C19-fnv-collision)" % len(known))
+    # the digest itself, and the real validate.Ordered against the model run WITH that digest (exact, collisions included)
+    rnd = ctx.rng("fnv")
+    PAIRS = ((b"8yn0iYCKYHlIj4-BwPqk", b"GReLUrM4wMqfg9yzV3KQ"), (b"gMPflVXtwGDXbIhP73TX", b"LtHf1prlU1bCeYZEdqWf"))
+    fl = []
+    for i in range(ctx.scale(400, 8000)):
+        n = rnd.choice([0, 1, 2, 3, 8, 20, 64, 300])
+        fl.append("d " + tg.hx(bytes(rnd.randrange(256) for _ in range(n)) if rnd.random() < 0.5 else gen.name(rnd, 3).encode()))
+    for a, b in PAIRS:
+        fl += ["d " + tg.hx(a), "d " + tg.hx(b)]
+    for i in range(ctx.scale(300, 6000)):
+        names = [gen.name(rnd, 2).encode() for _ in range(3)] + list(rnd.choice(PAIRS))
+        pts = []
+        for _ in range(rnd.randint(2, 12)):
+            pts += [tg.hx(rnd.choice(names)), str(rnd.choice([0, 1, 5, 5, 6, 7, 100, 2**32 - 1]))]
+        fl.append("o " + " ".join(pts))
+    ctx.stream("fnv-digest", "fnv", [("fnv%d" % i, fl[i:i + 200]) for i in range(0, len(fl), 200)], spec_exact=True, shrink=False,
+               classify=lambda l, o: "ordered" if l and l[0].startswith("o ") else "digest")
     ctx.stream("table-order", "table", cases(ctx.rng("c19"), ctx.scale(150, 3000)), classify=classify, spec_exact=True, monitor=monitor,
                nontrivial=lambda l, o: tuple(x for x in o if "ooo=1" in x) and tuple(o) or None,
                removable=lambda l: l.startswith(("in ", "inm ", "aggin ")))
